@@ -253,7 +253,8 @@ class Run:
             return mism
 
         mism = []
-        with concurrent.futures.ThreadPoolExecutor(max_workers=min(NCPU, 12)) as ex:
+        # every validating JVM may take its 4 GB heap: 6 at a time keep one check below ~26 GB whatever else runs on the machine
+        with concurrent.futures.ThreadPoolExecutor(max_workers=min(NCPU, int(os.environ.get("VERIF_VALIDATE_PAR", "6")))) as ex:
             for m in ex.map(one, range(len(bat))):
                 mism.extend(m)
         self.mismatches.extend(mism)
